@@ -276,6 +276,11 @@ func (d *Decoder) readObject(typ reflect.Type, cls ClassDef) (interface{}, error
 		// fmt.Printf("[%d]  >>>> start read field %s: %v, %v, %p\n", readObjectIndexCurr, fldName, vv.Type(), vv.Interface(), vv.Interface())
 		if err != nil {
 			hlog.Debugf("%s is not found, will skip type ->p %v", fldName, typ)
+			// the value of the unknown field must still be consumed, or every field
+			// after it is read from the wrong bytes
+			if _, err = d.ReadData(); err != nil {
+				return nil, newCodecError("readObject", "failed to skip field '%s'", fldName, err)
+			}
 			continue
 		}
 		fldValue := st.Field(index)
